@@ -8,7 +8,7 @@ Mirrors the Go statement by statement; `math.Sin/Cos/Acos` are the ports in `GoM
 namespace Ivg.Ren
 open Ivg Num GoMath
 
-private def f (i : Int) : F64 := F64.ofInt i
+abbrev f (i : Int) : F64 := F64.ofInt i
 def twoPi : F64 := f 2 * GoMath.pi
 
 /-- the `angle` closure of AbsArcTo -/
